@@ -27,6 +27,21 @@
 #define TAG_ENC(t) ((a_uptr)(t))
 #define TAG_DEC(p) ((int)((p)&1u))
 #define KIND "rbt"
+#define T_HEAD a_rbt_head
+#define T_TAIL a_rbt_tail
+#define T_NEXT a_rbt_next
+#define T_PREV a_rbt_prev
+#define T_PRE_NEXT a_rbt_pre_next
+#define T_PRE_PREV a_rbt_pre_prev
+#define T_POST_NEXT a_rbt_post_next
+#define T_POST_PREV a_rbt_post_prev
+#define T_TEAR a_rbt_tear
+#define FOREACH(c, r) A_RBT_FOREACH(c, r)
+#define FOREACH_REVERSE(c, r) A_RBT_FOREACH_REVERSE(c, r)
+#define PRE_FOREACH(c, r) A_RBT_PRE_FOREACH(c, r)
+#define PRE_FOREACH_REVERSE(c, r) A_RBT_PRE_FOREACH_REVERSE(c, r)
+#define POST_FOREACH(c, r) A_RBT_POST_FOREACH(c, r)
+#define POST_FOREACH_REVERSE(c, r) A_RBT_POST_FOREACH_REVERSE(c, r)
 #else
 #include "a/avl.h"
 #define NODE a_avl_node
@@ -39,6 +54,29 @@
 #define TAG_ENC(t) ((a_uptr)((t) + 1))
 #define TAG_DEC(p) ((int)((p)&3u) - 1)
 #define KIND "avl"
+#define T_HEAD a_avl_head
+#define T_TAIL a_avl_tail
+#define T_NEXT a_avl_next
+#define T_PREV a_avl_prev
+#define T_PRE_NEXT a_avl_pre_next
+#define T_PRE_PREV a_avl_pre_prev
+#define T_POST_NEXT a_avl_post_next
+#define T_POST_PREV a_avl_post_prev
+#define T_TEAR a_avl_tear
+#define FOREACH(c, r) A_AVL_FOREACH(c, r)
+#define FOREACH_REVERSE(c, r) A_AVL_FOREACH_REVERSE(c, r)
+#define PRE_FOREACH(c, r) A_AVL_PRE_FOREACH(c, r)
+#define PRE_FOREACH_REVERSE(c, r) A_AVL_PRE_FOREACH_REVERSE(c, r)
+#define POST_FOREACH(c, r) A_AVL_POST_FOREACH(c, r)
+#define POST_FOREACH_REVERSE(c, r) A_AVL_POST_FOREACH_REVERSE(c, r)
+#endif
+#if defined(__SANITIZE_ADDRESS__)
+#include <sanitizer/asan_interface.h>
+#define POISON(p, n) ASAN_POISON_MEMORY_REGION(p, n)
+#define UNPOISON(p, n) ASAN_UNPOISON_MEMORY_REGION(p, n)
+#else
+#define POISON(p, n) ((void)0)
+#define UNPOISON(p, n) ((void)0)
 #endif
 
 #define MAXN 64
@@ -327,6 +365,225 @@ static int do_edges(char const *in, char const *prefix, int nb)
     return 0;
 }
 
+
+/* ------------------------------------------------------------------ C03: iterators and tear-down */
+static void put_seq(FILE *f, char const *name, int const *a, int n)
+{
+    fprintf(f, "\"%s\":[", name);
+    for (int i = 0; i < n; ++i) { fprintf(f, i ? ",%d" : "%d", a[i]); }
+    fputc(']', f);
+}
+
+#define COLLECT(MACRO, name)                                              \
+    do {                                                                  \
+        int cnt = 0;                                                      \
+        NODE *cur;                                                        \
+        MACRO(cur, &root)                                                 \
+        {                                                                 \
+            if (cnt > N + 1) { break; }                                   \
+            seq[cnt++] = id_of(cur);                                      \
+        }                                                                 \
+        put_seq(f, name, seq, cnt);                                       \
+        fputc(',', f);                                                    \
+    } while (0)
+
+#define STEPS(FN, name)                                                   \
+    do {                                                                  \
+        for (int k = 1; k <= N; ++k) { seq[k - 1] = id_of(FN(&nd[k].node)); } \
+        put_seq(f, name, seq, N);                                         \
+        fputc(',', f);                                                    \
+    } while (0)
+
+static void put_rest(FILE *f, unsigned char const *member)
+{
+    proj p;
+    project(&p, member);
+    fprintf(f, "{\"root\":%d,\"left\":", p.root);
+    put_arr(f, p.left);
+    fputs(",\"right\":", f);
+    put_arr(f, p.right);
+    fputs(",\"par\":", f);
+    put_arr(f, p.par);
+    fputc('}', f);
+}
+
+/* one tear-down run on a fresh copy of the shape: start node `start` (0 = from the root),
+ * after `restart` steps (>= 0) the cursor is reset to null, as after an interruption.
+ * handed-out nodes are poisoned: a read after hand-out aborts under ASan. */
+static void tear_run(FILE *f, proj const *shape, int start, int restart, int with_rests)
+{
+    unsigned char member[MAXN + 2];
+    int order[MAXN + 4], cnt = 0;
+    materialise(shape);
+    memset(member, 0, sizeof(member));
+    for (int i = 1; i <= N; ++i) { member[i] = 1; }
+    NODE *next = ptr_of(start), *cur;
+    fprintf(f, "{\"start\":%d,\"restart\":%d,\"rests\":[", start, restart);
+    while ((cur = T_TEAR(&root, &next)) != NULL)
+    {
+        int id = id_of(cur);
+        order[cnt++] = id;
+        if (id >= 1 && id <= N)
+        {
+            member[id] = 0;
+            POISON(&nd[id].node, sizeof(NODE));
+        }
+        if (with_rests)
+        {
+            if (cnt > 1) { fputc(',', f); }
+            put_rest(f, member);
+        }
+        if (cnt == restart) { next = NULL; }
+        if (cnt > N + 1) { break; }
+    }
+    int final_root = id_of(root.node), final_next = id_of(next);
+    int extra = id_of(T_TEAR(&root, &next));
+    for (int i = 1; i <= N; ++i) { UNPOISON(&nd[i].node, sizeof(NODE)); }
+    fputs("],", f);
+    put_seq(f, "order", order, cnt);
+    fprintf(f, ",\"final_root\":%d,\"final_next\":%d,\"extra\":%d}", final_root, final_next, extra);
+}
+
+static void iter_shape(FILE *f, proj const *shape)
+{
+    int seq[MAXN + 4];
+    materialise(shape);
+    fprintf(f, "{\"kind\":\"%s\",\"n\":%d,", KIND, N);
+    put_proj(f, "shape", shape);
+    fputc(',', f);
+    COLLECT(FOREACH, "fwd");
+    COLLECT(FOREACH_REVERSE, "rev");
+    COLLECT(PRE_FOREACH, "pre");
+    COLLECT(PRE_FOREACH_REVERSE, "prerev");
+    COLLECT(POST_FOREACH, "post");
+    COLLECT(POST_FOREACH_REVERSE, "postrev");
+    STEPS(T_NEXT, "next");
+    STEPS(T_PREV, "prev");
+    STEPS(T_PRE_NEXT, "pnext");
+    STEPS(T_PRE_PREV, "pprev");
+    STEPS(T_POST_NEXT, "qnext");
+    STEPS(T_POST_PREV, "qprev");
+    fputs("\"tears\":[", f);
+    tear_run(f, shape, 0, -1, 1);
+    for (int s = 1; s <= N; ++s)
+    {
+        fputc(',', f);
+        tear_run(f, shape, s, -1, 0);
+    }
+    for (int k = 1; k < N; ++k)
+    {
+        fputc(',', f);
+        tear_run(f, shape, 0, k, 0);
+    }
+    fputs("]}\n", f);
+    ++n_events;
+}
+
+/* canonical form of a linked structure: present keys renumbered by rank */
+static int canon(proj const *in, proj *out)
+{
+    int rank[MAXN + 2], m = 0;
+    memset(rank, 0, sizeof(rank));
+    for (int k = 1; k <= N; ++k)
+    {
+        if (in->root == k || in->par[k]) { rank[k] = ++m; }
+    }
+    memset(out, 0, sizeof(*out));
+    out->root = rank[in->root];
+    for (int k = 1; k <= N; ++k)
+    {
+        if (!rank[k]) { continue; }
+        out->left[rank[k]] = rank[in->left[k]];
+        out->right[rank[k]] = rank[in->right[k]];
+        out->par[rank[k]] = rank[in->par[k]];
+        out->tag[rank[k]] = in->tag[k];
+    }
+    return m;
+}
+
+typedef struct shape_ent
+{
+    struct shape_ent *nextp;
+    int m;
+    proj p;
+} shape_ent;
+#define HSIZE (1 << 16)
+static shape_ent *htab[HSIZE];
+static long n_shapes;
+
+static int shape_seen(proj const *p, int m)
+{
+    uint64_t h = 1469598103934665603ull;
+    unsigned char const *b = (unsigned char const *)p;
+    for (size_t i = 0; i < sizeof(*p); ++i) { h = (h ^ b[i]) * 1099511628211ull; }
+    h ^= (uint64_t)m;
+    shape_ent **slot = &htab[h % HSIZE];
+    for (shape_ent *e = *slot; e; e = e->nextp)
+    {
+        if (e->m == m && !memcmp(&e->p, p, sizeof(*p))) { return 1; }
+    }
+    shape_ent *e = (shape_ent *)malloc(sizeof(*e));
+    e->m = m;
+    e->p = *p;
+    e->nextp = *slot;
+    *slot = e;
+    ++n_shapes;
+    return 0;
+}
+
+static int do_iter(char const *in, char const *prefix, int nb, int maxnodes)
+{
+    FILE *fi = fopen(in, "r");
+    if (!fi) { perror(in); return 3; }
+    FILE *fo[64];
+    char name[512];
+    if (nb > 64) { nb = 64; }
+    for (int i = 0; i < nb; ++i)
+    {
+        snprintf(name, sizeof(name), "%s-%04d.ndjson", prefix, i);
+        fo[i] = fopen(name, "w");
+        if (!fo[i]) { perror(name); return 3; }
+    }
+    static char line[1 << 16];
+    static int v[8192];
+    while (fgets(line, sizeof(line), fi))
+    {
+        if (!strstr(line, "7777777")) { continue; }
+        int n = parse_ints(line, v, 8192);
+        if (v[0] != 7777777 || (n - 26) % 8) { fprintf(stderr, "bad edge line (%d ints)\n", n); return 3; }
+        int fullN = (n - 26) / 8;
+        proj st[2], c;
+        N = fullN;
+        int off = 4;
+        off += read_proj(v + off, &st[0]);
+        off += read_proj(v + off, &st[1]);
+        {
+            /* the second shape is what the REAL operation makes of the pre-state (identical to the
+               model's post-state unless the code deviates): iterators are also run on structures
+               the real insert/remove produced */
+            unsigned char member[MAXN + 2];
+            memset(member, 0, sizeof(member));
+            for (int i = 1; i <= N; ++i) { member[i] = (st[0].root == i || st[0].par[i]) ? 1 : 0; }
+            materialise(&st[0]);
+            apply(v[1], v[2], member, &st[1]);
+        }
+        for (int w = 0; w < 2; ++w)
+        {
+            N = fullN;
+            int m = canon(&st[w], &c);
+            if (m > maxnodes) { continue; }
+            if (shape_seen(&c, m)) { continue; }
+            N = m;
+            iter_shape(fo[n_shapes % nb], &c);
+            ++n_edges;
+            n_nontrivial += m >= 3;
+        }
+    }
+    for (int i = 0; i < nb; ++i) { fclose(fo[i]); }
+    fclose(fi);
+    return 0;
+}
+
 static uint64_t rng_s;
 static uint32_t rnd(void)
 {
@@ -377,8 +634,9 @@ static int do_random(unsigned seed, int nhist, int nkeys, int nops, char const *
             memcpy(member_pre, member, sizeof(member));
             int ret = apply(op, k, member, &post);
             ++n_edges;
-            check_abstract(op, k, ret, member_pre, &pre, &post);
+            int good = check_abstract(op, k, ret, member_pre, &pre, &post);
             log_event(fo, op, k, ret, i ? 1 : 0, &pre, &post);
+            if (!good) { break; } /* later states would be garbage */
             pre = post;
         }
         fclose(fo);
@@ -391,6 +649,7 @@ int main(int argc, char **argv)
     summary = stdout;
     int rc = 2;
     if (argc >= 5 && !strcmp(argv[1], "edges")) { rc = do_edges(argv[2], argv[3], atoi(argv[4])); }
+    else if (argc >= 6 && !strcmp(argv[1], "iter")) { rc = do_iter(argv[2], argv[3], atoi(argv[4]), atoi(argv[5])); }
     else if (argc >= 8 && !strcmp(argv[1], "random"))
     {
         rc = do_random((unsigned)strtoul(argv[2], 0, 10), atoi(argv[3]), atoi(argv[4]), atoi(argv[5]), argv[6], atoi(argv[7]));
